@@ -75,6 +75,12 @@ func runC04(c *core.Case) {
 	edges := []uint32{1, 2, 255, 256, 257, 511, 512, 513}
 	ps := []uint32{512, 1024, 4096, 512}[c.Index%4]
 	wal := (c.Index/4)%2 == 1
+	if c.Index%16 == 2 {
+		// SQLite's largest page size (encoded as 1 in the header), small page
+		// counts, both journal modes
+		ps, wal = 65536, (c.Index/16)%2 == 1
+		c.Count("page_size_65536_cases", 1)
+	}
 	jmode := []string{"delete", "truncate", "persist"}[(c.Index/8)%3]
 	tune := func(s *litefs.Store) { s.Compress = c.Index%3 == 0 }
 	cl, err := cluster.New(c.Dir, []cluster.NodeOpts{{Candidate: true, Tune: tune}, {Tune: tune}})
